@@ -94,6 +94,7 @@ def xvalid (trk : Nat → Bool) (nalt : Nat) (s : St) (t : Bool) : XOp → Bool
   | .optAssignCopy _ | .optAssignMove _ => 1 < nalt
   | .reset => 0 < nalt
   | .use => varSpecified trk s.mem (baseOf 1 t) (s.sz t)
+  | .assignOwn => false   -- excluded: known finding F-C03-variant-assign-own-alternative
   | _ => true
 
 inductive XReach (k : Kind) (trk : Nat → Bool) (nalt : Nat) : St → Prop where
